@@ -32,7 +32,7 @@ OPTIONAL = [f for f in M.FIELDS if f[0] != "Resolution"]
 NAMES = [f[0] for f in M.FIELDS]
 VFRAGS = ['"', "=", " = ", " ", "  ", "\t", "é", "漢字", "x", "The Song", ", 2018", "song.ogg", "rock", "0",
           "Resolution = 5", 'Artist = "x"', "Offset = 7", "Player2 = rhythm", "bass", "\\", "'", "[Song]",
-          "{", "}"] + NAMES + G.UNICODE_ODDITIES + G.MARKUP_ODDITIES + G.WRAPPED
+          "{", "}", '\\"', '\\"x', "[Events]", "// x", "# x", "; x"] + NAMES + G.UNICODE_ODDITIES + G.MARKUP_ODDITIES + G.WRAPPED
 str_values = st.one_of(
     st.lists(st.sampled_from(VFRAGS), min_size=1, max_size=4).map("".join),
     st.text(alphabet=st.characters(min_codepoint=32, max_codepoint=0x2FF,
@@ -65,6 +65,12 @@ def _bodies(draw, ctx):
     fields = []
     for pascal, snake, kind, default in chosen:
         fields.append([pascal, draw(_value_for(kind)), draw(_pad_l), draw(_pad_r)])
+    # coincidences between fields: one field's value written again under another field of the same kind
+    for kind in ("str", "int"):
+        same = [k for k, f in enumerate(fields) if M.FIELD_BY_PASCAL[f[0]][2] == kind]
+        if len(same) >= 2 and draw(st.integers(0, 3)) == 0:
+            i, j = draw(st.sampled_from(same)), draw(st.sampled_from(same))
+            fields[j][1] = fields[i][1]
     if has_res:
         res_v = draw(st.one_of(st.sampled_from(["192", "480", "100"]), int_values))
         fields.append(["Resolution", res_v, draw(_pad_l), draw(_pad_r)])
